@@ -165,7 +165,7 @@ _CONSTRUCT = st.fixed_dictionaries({
     "res": st.integers(0, 1), "dom": st.integers(0, 1), "fs": st.integers(0, 1)})
 
 _EVAL = st.fixed_dictionaries({
-    "op": _pick("evaluate", "evaluate", "evaluate_twice"), "c": st.integers(0, MAX_CONDS - 1),
+    "op": _pick("evaluate", "evaluate", "evaluate_twice", "evaluate", "train_start"), "c": st.integers(0, MAX_CONDS - 1),
     "it": _pick("none", "step")})
 
 
@@ -936,6 +936,19 @@ def run_case(spec, ctx):
             continue
         live = [c for c in conds if c.alive]
         if not live:
+            continue
+        if op["op"] == "train_start":
+            # what Solver.on_train_start does with every condition before the first step: move the
+            # pre-evaluated (static) data to the training device; it must not change any value
+            classes.add("train-start")
+            for cc in live:
+                for who, obj in (("isolated twin", cc.twin), ("condition", cc.real)):
+                    ok, _ = guarded(f"op {pos}: _move_static_data of {who} #{cc.order} ({cc.plan.kind})",
+                                    iso_feature(cc.plan) if who != "condition" else "train-start",
+                                    lambda obj=obj: obj._move_static_data("cpu"))
+                    if not ok:
+                        cc.alive = False
+            audit(f"op {pos} (train start)")
             continue
         c = live[op.get("c", op.get("sampler", 0)) % len(live)]
         mode = mode_of(op)
